@@ -3,6 +3,8 @@ import codecs
 import os
 import termios
 
+from pexpect import TIMEOUT as pexpect_TIMEOUT, EOF as pexpect_EOF
+
 from ..core.runner import split_range
 from ..workloads.gen_expect import rng_for
 from ..workloads.puppetctl import PeerError
@@ -128,6 +130,14 @@ def one(case, acc):
             kinds.add(name)
             acc.count('calls')
             part = b''
+            if (k + len(case['calls'])) % 3 == 0:
+                # reads that find nothing and time out (at once, or after 10 ms) between the sends: whatever a read
+                # does to the transport for the length of its wait must be undone when it ends in TIMEOUT
+                acc.count('timed_out_reads_between_sends')
+                try:
+                    c.expect_exact([b'\x00never' if enc is None else '\x00never'], timeout=[0, 0.01][k % 2])
+                except (pexpect_TIMEOUT, pexpect_EOF):
+                    pass
             try:
                 if name == 'send':
                     part = ex.enc_arg(call[1])
